@@ -40,6 +40,13 @@ def run(cx):
     from props.shared import loss_rate_shape
     loss_rate_shape(cx, "C11.p")
     sync_timer_writers(cx, "C11.q")
+    from props.shared import packet_ack_exact
+    packet_ack_exact(cx, "C11.r")
+    from props.shared import frame_forward_exact
+    frame_forward_exact(cx, "C11.t")
+    # a lost fragment that counts as acknowledged is never resent; the resync that follows skips the Reliable packet
+    from props.C04 import inst_fragment_flags
+    inst_fragment_flags(cx, "C11.s")
 
 
 def sync_timer_writers(cx, iid):
@@ -207,7 +214,15 @@ def ack_advance_exact(cx, iid):
                     continue
                 lits = fb.edge_lits.get((bb, y, lab[1]), [])
                 inst.site(b, Loc(bb, 0), "edge that skips the cull: " + " ".join(lits)[:100])
-                ok = any(re.fullmatch(r"!FrameQueue::can_advance_transfer_window\(arg1,arg2\)", x) or re.fullmatch(r"eq\(0,%s\)" % LD, x) or re.fullmatch(r"lt\(FrameLog::len\(arg1\.frame_log\),%s\)" % LD, x) for x in lits)
+                def allowed(x):
+                    return (re.fullmatch(r"!FrameQueue::can_advance_transfer_window\(arg1,arg2\)", x) or re.fullmatch(r"eq\(0,%s\)" % LD, x)
+                            or re.fullmatch(r"lt\(FrameLog::len\(arg1\.frame_log\),%s\)" % LD, x))
+                ok = any(allowed(x) for x in lits)
+                if not ok:
+                    # the test may be spelled through a boolean local (`if !pred { skip }`): read the refined facts at the
+                    # edge's target - every alternative that took this edge must contain one of the allowed reasons
+                    alts = [a for a in (fb.at(Loc(y, 0)) or []) if all(z in a for z in lits)]
+                    ok = bool(alts) and all(any(allowed(x) for x in a) for a in alts)
                 if not ok:
                     inst.violation(b.path, "cull skipped", "the frame log is not culled on `%s`: acknowledged frames stay in the log and produce no feedback" % " ".join(lits)[:140])
 
